@@ -93,7 +93,8 @@ def check_sense(kinds, KINDS, iterations, res, sense_log, xres, xlog,
 
 
 # -- connect ---------------------------------------------------------------------
-def check_connect(opts, log, ret, objs, term_at, happened=None):
+def check_connect(opts, log, ret, objs, term_at, happened=None,
+                  interrupted=False):
     bad = []
     cbs = [(i, e) for i, e in enumerate(log) if e[0] == 'cb']
     devs = [i for i, e in enumerate(log) if e[0] == 'dev']
@@ -187,6 +188,14 @@ def check_connect(opts, log, ret, objs, term_at, happened=None):
             bad.append(('return|after-release|got=%s' % ret_class(value),
                         dict(want=want)))
     else:
-        if value is not None and value is not False:
-            bad.append(('return|terminated|got=%s' % ret_class(value), {}))
+        # "returns None ... when the 'terminate' function returned a true
+        # value"; False is documented for KeyboardInterrupt, IOError and
+        # UnsupportedTargetError only (cases with an injected host-link
+        # fault are judged by the caller and never get here).  A false value
+        # returned by an earlier 'on-release' is not the result of connect().
+        if value is not None and not (value is False and interrupted):
+            bad.append(('return|terminated|got=%s' % ret_class(value),
+                        dict(last_callback=final[2] if final else None,
+                             last_callback_returned=final[6] if final
+                             else None)))
     return bad
